@@ -111,7 +111,8 @@ PART_POOLS = {
     'pnum': ['1', '02', '3.5', '10'],         # numeric-looking text
     'pint': [0, 1, 7, -3, 12],
     'pbool': [True, False],
-    'pfloat': [0.5, 1.25, -2.0, 3.0],
+    'pfloat': [0.5, 1.0, 0.0, -2.0, 3.0],
+    'pcat': ['x', 'y', 'z', 'w'],
     'pts': ['2020-01-01', '2020-01-02T03:04:05', '1999-12-31'],
 }
 
@@ -125,6 +126,10 @@ def part_series(kind, vals):
         return pd.Series(np.array(vals, dtype=bool))
     if kind == 'pfloat':
         return pd.Series(np.array(vals, dtype='float64'))
+    if kind == 'pcat':
+        # categorical partition column: categories that do not occur in a
+        # chunk give empty groups in the writer's groupby
+        return pd.Series(pd.Categorical(vals, categories=PART_POOLS['pcat']))
     return pd.Series(vals, dtype='object')
 
 
